@@ -33,7 +33,7 @@ func init() {
 			"the strict validator harness/ref/smf.go (header length 6, ntrks == number of MTrk chunks, exact chunk lengths, exactly one end-of-track and last, canonical VLQs of at most 4 bytes, running status only directly after a channel event of the same track, no alien chunks, no trailing bytes)",
 			"for deltas above 0x0FFFFFFF (5-byte form accepted by the API) only the round trip is required, not validity (statement)",
 		},
-		Require: []string{"files_validated", "vlq_values", "vlq_5byte_values", "bytes_emitted", "determinism_checks", "chunk_boundary_files", "length_vlq_boundaries", "running_status_events", "body_sizes_swept"},
+		Require: []string{"files_validated", "vlq_values", "vlq_5byte_values", "bytes_emitted", "determinism_checks", "chunk_boundary_files", "length_vlq_boundaries", "running_status_events", "body_sizes_swept", "write_change_write_values"},
 		Run:     runC03,
 	})
 }
@@ -100,6 +100,38 @@ func runC03(c *mon.Ctx) {
 		}
 		if i < 1 {
 			c.Sample("file", mon.Hex(head(b, 100)))
+		}
+	})
+
+	// ---- the same value written, then changed through the exported fields, then written again
+	c.Each("write-change-write", c.N(2000, 100_000), func(i int64, r *mon.Rand) {
+		a := buildHistory(r, 0x0FFFFFFF, false)
+		in := map[string]any{"history": a.desc}
+		if c03Check(c, a.s, a.sh, in, true) == nil {
+			return
+		}
+		switch {
+		case len(a.s.Tracks) > 1 && r.P(1, 2): // shrink
+			k := r.Intn(len(a.s.Tracks))
+			a.s.Tracks = append(a.s.Tracks[:k:k], a.s.Tracks[k+1:]...)
+			a.sh.Tracks = append(a.sh.Tracks[:k:k], a.sh.Tracks[k+1:]...)
+			in["then"] = fmt.Sprintf("track %d removed from Tracks", k)
+		case r.P(1, 2): // grow
+			var tr smf.Track
+			tr.Add(1, []byte{0xC0, 1})
+			tr.Close(0)
+			a.s.Add(tr)
+			a.sh.Tracks = append(a.sh.Tracks, []ref.Ev{{Delta: 1, Msg: []byte{0xC0, 1}}, {Delta: 0, Msg: ref.EOT}})
+			if a.sh.Format == 0 {
+				a.sh.Format = 1
+			}
+			in["then"] = "one track added"
+		default:
+			a.s.NoRunningStatus = !a.s.NoRunningStatus
+			in["then"] = "NoRunningStatus flipped"
+		}
+		if c03Check(c, a.s, a.sh, in, true) != nil {
+			c.Count("write_change_write_values", 1)
 		}
 	})
 
